@@ -150,6 +150,199 @@ theorem ack5_length_exact (first : Nat) (p : Ack) (steps : List Step) (h : ackSt
         simp [stepLen, hvs, stOptBytesProp_len, stUserProps_len]
         omega
 
+/-- **SUBSCRIBE (MQTT 5)**: Remaining Length and Property Length are exact. -/
+theorem subscribe5_lengths_exact (p : Subscribe) (rl pl : Nat) (h : subscribeLengths5 p = some (rl, pl)) :
+    ∃ props entries, subscribeSteps5 p = some ([Step.u8 130, .vli rl, .u16 p.packetId, .vli pl] ++ props ++ entries) ∧
+      stepsLen props = pl ∧ stepsLen ([Step.u16 p.packetId, .vli pl] ++ props ++ entries) = rl := by
+  refine ⟨stOptNum .vli 11 p.subscriptionId ++ stUserProps p.userProps,
+    p.subscriptions.flatMap (fun s => stLenBytes s.topicFilter ++ [Step.u8 (subscriptionOptions5 s)]), ?_, ?_⟩
+  · simp only [subscribeSteps5, h, List.append_assoc, List.cons_append, List.nil_append]
+  · unfold subscribeLengths5 at h
+    cases hsid : optVliPropLen p.subscriptionId with
+    | none => simp [hsid] at h
+    | some sidLen =>
+      simp only [hsid] at h
+      cases hvs : vliSize (userPropsLen p.userProps + sidLen) with
+      | none => simp [hvs] at h
+      | some s =>
+        simp only [hvs, Option.some.injEq, Prod.mk.injEq] at h
+        obtain ⟨hrl, hpl⟩ := h
+        have hprops : stepsLen (stOptNum .vli 11 p.subscriptionId ++ stUserProps p.userProps) = pl := by
+          rw [stepsLen_append, stOptNum_vli_len 11 _ _ hsid, stUserProps_len, ← hpl]; omega
+        refine ⟨hprops, ?_⟩
+        have hvpl : stepLen (Step.vli pl) = s := by simp [stepLen, ← hpl, hvs]
+        simp only [stepsLen_append, stepsLen_cons, stepsLen_nil, hprops, sub_entries_len]
+        rw [hvpl]
+        simp only [stepLen]
+        omega
+
+/-- **UNSUBSCRIBE (MQTT 5)**: Remaining Length and Property Length are exact. -/
+theorem unsubscribe5_lengths_exact (p : Unsubscribe) (rl pl : Nat) (h : unsubscribeLengths5 p = some (rl, pl)) :
+    unsubscribeSteps5 p = some ([Step.u8 162, .vli rl, .u16 p.packetId, .vli pl] ++ stUserProps p.userProps ++ p.topicFilters.flatMap stLenBytes) ∧
+      stepsLen (stUserProps p.userProps) = pl ∧
+      stepsLen ([Step.u16 p.packetId, .vli pl] ++ stUserProps p.userProps ++ p.topicFilters.flatMap stLenBytes) = rl := by
+  refine ⟨by simp only [unsubscribeSteps5, h], ?_⟩
+  unfold unsubscribeLengths5 at h
+  simp only [] at h
+  cases hvs : vliSize (userPropsLen p.userProps) with
+  | none => simp [hvs] at h
+  | some s =>
+    simp only [hvs, Option.some.injEq, Prod.mk.injEq] at h
+    obtain ⟨hrl, hpl⟩ := h
+    refine ⟨by rw [stUserProps_len]; exact hpl, ?_⟩
+    have hvpl : stepLen (Step.vli pl) = s := by simp [stepLen, ← hpl, hvs]
+    simp only [stepsLen_append, stepsLen_cons, stepsLen_nil, stUserProps_len, unsub_filters_len]
+    rw [hvpl]
+    simp only [stepLen]
+    omega
+
+/-- **SUBSCRIBE / UNSUBSCRIBE (MQTT 3.1.1)**: Remaining Length is exact. -/
+theorem subscribe311_length_exact (p : Subscribe) :
+    ∃ body, subscribeSteps311 p = [Step.u8 130, .vli (subscribeLength311 p)] ++ body ∧ stepsLen body = subscribeLength311 p := by
+  refine ⟨[.u16 p.packetId] ++ p.subscriptions.flatMap (fun s => stLenBytes s.topicFilter ++ [Step.u8 s.qos]), by simp [subscribeSteps311], ?_⟩
+  simp only [stepsLen_append, stepsLen_cons, stepsLen_nil, sub_entries_len, subscribeLength311, stepLen]
+  omega
+
+theorem unsubscribe311_length_exact (p : Unsubscribe) :
+    ∃ body, unsubscribeSteps311 p = [Step.u8 162, .vli (unsubscribeLength311 p)] ++ body ∧ stepsLen body = unsubscribeLength311 p := by
+  refine ⟨[.u16 p.packetId] ++ p.topicFilters.flatMap stLenBytes, by simp [unsubscribeSteps311], ?_⟩
+  simp only [stepsLen_append, stepsLen_cons, stepsLen_nil, unsub_filters_len, unsubscribeLength311, stepLen]
+  omega
+
+
+theorem stOptBool_len (k : Nat) (o : Option Bool) : stepsLen (stOptBool k o) = optLen 2 o := by
+  cases o <;> simp [stOptBool, optLen, stepLen]
+
+theorem stLenOptBytes_len (o : Option Bytes) : stepsLen (stLenOptBytes o) = optBytesLen o := by
+  cases o <;> simp [stLenOptBytes, optBytesLen, stepLen]
+
+/-- **CONNECT (MQTT 3.1.1)**: Remaining Length is exact. -/
+theorem connect311_length_exact (p : Connect) (steps : List Step) (h : connectSteps311 p = some steps) :
+    ∃ rl body, steps = [Step.u8 16, .vli rl] ++ body ∧ stepsLen body = rl := by
+  unfold connectSteps311 at h
+  cases hl : connectLength311 p with
+  | none => simp [hl] at h
+  | some rl =>
+    simp only [hl, Option.some.injEq] at h
+    subst h
+    refine ⟨rl, _, by simp only [List.cons_append, List.nil_append, List.append_assoc]; rfl, ?_⟩
+    unfold connectLength311 at hl
+    simp only [] at hl
+    cases hw : p.will <;> cases hu : p.username <;> cases hpw : p.password <;> simp only [hw, hu, hpw] at hl ⊢ <;>
+      (split at hl
+       · simp at hl
+       · simp only [Option.some.injEq] at hl
+         subst hl
+         simp [stepLen, protocolBytes311, stLenBytes, stLenOptBytes_len, stepsLen_append]
+         try omega)
+
+theorem connectPropSteps_len (p : Connect) : stepsLen (connectPropSteps p) = connectPropLen p := by
+  simp only [connectPropSteps, connectPropLen, stepsLen_append, stOptNum_u32_len, stOptNum_u16_len, stOptBool_len,
+    stOptBytesProp_len, stUserProps_len]
+  omega
+
+theorem credSteps_len (p : Connect) : stepsLen (credSteps p) = credLen p := by
+  unfold credSteps credLen
+  cases p.username <;> cases p.password <;> simp [stLenBytes, stepLen] <;> omega
+
+theorem willSteps_len (p : Connect) (wlen wpl : Nat) (h : willPart p = some (wlen, wpl)) : stepsLen (willSteps p wpl) = wlen := by
+  unfold willPart at h
+  unfold willSteps
+  cases hw : p.will with
+  | none => simp [hw] at h; simp [h.1]
+  | some w =>
+    simp only [hw] at h ⊢
+    cases hws : vliSize (willPropLen p w) with
+    | none => simp [hws] at h
+    | some ws =>
+      simp only [hws, Option.some.injEq, Prod.mk.injEq] at h
+      obtain ⟨hlen, hwpl⟩ := h
+      have hv : stepLen (Step.vli wpl) = ws := by simp [stepLen, ← hwpl, hws]
+      simp only [stepsLen_append, stepsLen_cons, stepsLen_nil, stOptNum_u32_len, stOptNum_u8_len, stOptBytesProp_len,
+        stUserProps_len, stLenBytes_len, stLenOptBytes_len]
+      rw [hv, ← hlen]
+      simp only [willPropLen]
+      omega
+
+/-- **CONNECT (MQTT 5)**: Remaining Length, CONNECT Property Length and Will Property Length are exact. -/
+theorem connect5_lengths_exact (p : Connect) (rl pl wpl : Nat) (h : connectLengths5 p = some (rl, pl, wpl)) :
+    connectSteps5 p = some ([Step.u8 16, .vli rl, .slice protocolBytes5, .u8 (connectFlags p), .u16 p.keepAlive, .vli pl]
+      ++ connectPropSteps p ++ stLenOptBytes p.clientId ++ willSteps p wpl ++ credSteps p) ∧
+    stepsLen (connectPropSteps p) = pl ∧
+    stepsLen ([Step.slice protocolBytes5, .u8 (connectFlags p), .u16 p.keepAlive, .vli pl]
+      ++ connectPropSteps p ++ stLenOptBytes p.clientId ++ willSteps p wpl ++ credSteps p) = rl := by
+  refine ⟨by simp only [connectSteps5, h], ?_⟩
+  unfold connectLengths5 at h
+  cases hvs : vliSize (connectPropLen p) with
+  | none => simp [hvs] at h
+  | some s =>
+    simp only [hvs] at h
+    cases hwp : willPart p with
+    | none => simp [hwp] at h
+    | some x =>
+      obtain ⟨wlen, wpl'⟩ := x
+      simp only [hwp] at h
+      by_cases hgt : optBytesLen p.clientId + wlen + credLen p + (s + 10 + connectPropLen p) > maxVli
+      · simp [hgt] at h
+      · simp only [hgt, ↓reduceIte, Option.some.injEq, Prod.mk.injEq] at h
+        obtain ⟨hrl, hpl, hwpl⟩ := h
+        subst hwpl
+        refine ⟨by rw [connectPropSteps_len]; exact hpl, ?_⟩
+        have hv : stepLen (Step.vli pl) = s := by simp [stepLen, ← hpl, hvs]
+        simp only [stepsLen_append, stepsLen_cons, stepsLen_nil, connectPropSteps_len, stLenOptBytes_len,
+          willSteps_len p wlen wpl' hwp, credSteps_len]
+        rw [hv, ← hrl]
+        simp [stepLen, protocolBytes5]
+        omega
+
+/-- **DISCONNECT (MQTT 5)**: Remaining Length is exact in each of the three shapes. -/
+theorem disconnect5_length_exact (p : Disconnect) (steps : List Step) (h : disconnectSteps5 p = some steps) :
+    ∃ rl body, steps = [Step.u8 224, .vli rl] ++ body ∧ stepsLen body = rl := by
+  unfold disconnectSteps5 at h
+  cases hl : disconnectLengths p with
+  | none => simp [hl] at h
+  | some x =>
+    obtain ⟨rl, pl⟩ := x
+    simp only [hl] at h
+    unfold disconnectLengths at hl
+    simp only [] at hl
+    by_cases hp0 : userPropsLen p.userProps + optLen 5 p.sessionExpiry + optBytesPropLen p.reasonString + optBytesPropLen p.serverReference = 0
+    · rw [if_pos hp0] at hl
+      by_cases hrc : p.reasonCode = 0
+      · rw [if_pos hrc] at hl
+        simp only [Option.some.injEq, Prod.mk.injEq] at hl
+        obtain ⟨rfl, rfl⟩ := hl
+        have hb : ((0 : Nat) = 0 && p.reasonCode = 0) = true := by simp [hrc]
+        rw [if_pos hb] at h
+        simp only [Option.some.injEq] at h
+        subst h
+        exact ⟨0, [], rfl, rfl⟩
+      · rw [if_neg hrc] at hl
+        simp only [Option.some.injEq, Prod.mk.injEq] at hl
+        obtain ⟨rfl, rfl⟩ := hl
+        have hb : ¬ (((0 : Nat) = 0 && p.reasonCode = 0) = true) := by simp [hrc]
+        rw [if_neg hb, if_pos rfl] at h
+        simp only [Option.some.injEq] at h
+        subst h
+        exact ⟨1, [.u8 p.reasonCode], rfl, by simp [stepLen]⟩
+    · rw [if_neg hp0] at hl
+      cases hvs : vliSize (userPropsLen p.userProps + optLen 5 p.sessionExpiry + optBytesPropLen p.reasonString + optBytesPropLen p.serverReference) with
+      | none => simp [hvs] at hl
+      | some s =>
+        simp only [hvs, Option.some.injEq, Prod.mk.injEq] at hl
+        obtain ⟨rfl, rfl⟩ := hl
+        have hb : ¬ ((userPropsLen p.userProps + optLen 5 p.sessionExpiry + optBytesPropLen p.reasonString + optBytesPropLen p.serverReference = 0 && p.reasonCode = 0) = true) := by
+          simp only [Bool.and_eq_true, decide_eq_true_eq, not_and]; intro h0; exact absurd h0 hp0
+        rw [if_neg hb, if_neg hp0] at h
+        simp only [Option.some.injEq] at h
+        subst h
+        refine ⟨1 + s + (userPropsLen p.userProps + optLen 5 p.sessionExpiry + optBytesPropLen p.reasonString + optBytesPropLen p.serverReference),
+          [.u8 p.reasonCode, .vli (userPropsLen p.userProps + optLen 5 p.sessionExpiry + optBytesPropLen p.reasonString + optBytesPropLen p.serverReference)]
+          ++ stOptNum .u32 17 p.sessionExpiry ++ stOptBytesProp 31 p.reasonString ++ stOptBytesProp 28 p.serverReference ++ stUserProps p.userProps, by simp, ?_⟩
+        simp [stepLen, hvs, stOptNum_u32_len, stOptBytesProp_len, stUserProps_len]
+        omega
+
+
 /-- Non-vacuity: a concrete PUBLISH with a 9-byte payload through 4- and 5-byte buffers meets the
     hypotheses of `encoder_chunk_invariant` and produces its 19 bytes. -/
 def demoPublish : Publish :=
